@@ -30,7 +30,7 @@ def tset(xs):
     return "{" + ", ".join(one(x) for x in xs) + "}"
 
 
-def cfg_text(spec, c, invariants=(), props=(), constraint=None):
+def cfg_text(spec, c, invariants=(), props=(), constraint=None, view=None):
     lines = ["SPECIFICATION %s" % spec, "CONSTANTS",
              "  NP = %d" % c.get("np", 2), "  BudSet = %s" % tset(c.get("bud", [1])),
              "  Depth = %d" % c.get("depth", 0), '  CacheRule = "%s"' % c.get("cache", "none"),
@@ -42,6 +42,8 @@ def cfg_text(spec, c, invariants=(), props=(), constraint=None):
     lines += ["PROPERTY %s" % p for p in props]
     if constraint:
         lines.append("CONSTRAINT %s" % constraint)
+    if view:
+        lines.append("VIEW %s" % view)
     lines.append("CHECK_DEADLOCK FALSE")
     return "\n".join(lines) + "\n"
 
@@ -50,7 +52,7 @@ MPATHS = ["archive", "cleaner", "host", "helper"]
 PLAN = dict(
     quick=dict(
         # requirement vs table + cache (whole-cache invalidation): every interleaving to depth 5
-        hist=dict(np=2, bud=[1], depth=5, cache="all", pats=[[1], [2], [0]]),
+        hist=dict(np=2, bud=[1], depth=6, cache="all", pats=[[1], [2]]),
         # the code's invalidation rule: TLC must find the stale look-up
         stale=dict(np=2, bud=[1], depth=5, cache="self", pats=[[1], [2], [0]]),
         emit=dict(np=1, bud=[1], depth=3, cache="none", pats=[[1]]),
@@ -58,7 +60,7 @@ PLAN = dict(
         nsim=1200, hist_cap=3500, nrand_hist=700, content_cap=1100, nrand_content=350, tests_cases=120,
         grep_every=4, selftest=16),
     thorough=dict(
-        hist=dict(np=2, bud=[1], depth=6, cache="all", pats=[[1], [2], [0]]),
+        hist=dict(np=2, bud=[1, 2], depth=7, cache="all", pats=[[1], [2], [0]]),
         stale=dict(np=2, bud=[1], depth=5, cache="self", pats=[[1], [2], [0]]),
         emit=dict(np=2, bud=[1], depth=3, cache="none", pats=[[1], [2]], get=["I1", "I2", "P", "I3"]),
         content=[dict(np=2, maxlines=5, cbud=[0, 1, 2, INF], paths=MPATHS),
@@ -195,11 +197,12 @@ def run(prop, tier):
 
     w = max(2, min(8, lib.NCPU // 4))
     jobs = [
-        ("hist", "Filters", wr("hist.cfg", cfg_text("SpecHist", plan["hist"], HIST_INV, ["LookupIsUnion"])),
-         dict(workers=w, coverage=True), True),
+        ("hist", "Filters", wr("hist.cfg", cfg_text("SpecHist", plan["hist"], HIST_INV, ["LookupIsUnion"],
+                                                    view="HistView")),
+         dict(workers=w), True),
         ("stale", "Filters", wr("stale.cfg", cfg_text("SpecHist", plan["stale"], HIST_INV)), dict(workers=2), False),
         ("emit", "FiltersMC", wr("emit.cfg", cfg_text("SpecH", plan["emit"], HIST_INV, constraint="EmitHist")),
-         dict(workers=2, raw_cases=True), True),
+         dict(workers=2, raw_cases=True, coverage=True), True),
         ("sim", "FiltersMC", wr("sim.cfg", cfg_text("SpecS", SIM, HIST_INV, constraint="EmitHist")),
          dict(workers=2, raw_cases=True, simulate=max(1, plan["nsim"] // 2), depth=12, tlc_seed=lib.seed() + 11), True),
     ]
@@ -227,7 +230,7 @@ def run(prop, tier):
     cex = [l for l in st.out.splitlines() if l.startswith("State ")]
     print("model: cache invalidation rule 'self' (filters.py:93-94) refuted by TLC: LookupIsUnion violated after "
           "%d steps; rule 'all' satisfies it on %d states" % (max(0, len(cex) - 1), res["hist"].distinct))
-    for mod_name, acts in (("hist", ("AddFilter", "GetFilters")), ("content0", ("StartC", "KeepLineC", "FinishC"))):
+    for mod_name, acts in (("emit", ("AddOne", "GetOne")), ("content0", ("StartC", "KeepLineC", "FinishC"))):
         for a in acts:
             if not res[mod_name].coverage.get(a):
                 raise lib.MachineryError("vacuity: action %s never taken in %s (%s)"
@@ -287,9 +290,18 @@ def run(prop, tier):
     grep_runs = grep_checked = 0
     for o in outs:
         for t in o["traces"]:
-            if "concrete" in t:
-                concrete[t["id"]] = t.pop("concrete")
-            traces.append(t)
+            if t["kind"] == "content":
+                # one trace per code path, so that a rejection on one path does not hide the others
+                conc = t.pop("concrete")
+                for e in t["events"]:
+                    tid = "%s/%s" % (t["id"], e["path"])
+                    concrete[tid] = conc
+                    traces.append(dict(id=tid, kind="content", events=[e]))
+            else:
+                for e in t["events"]:
+                    if e["ev"] == "get":
+                        e["skip"] = False
+                traces.append(t)
         grep_runs += o["stats"].get("grep_runs", 0)
         grep_checked += o["stats"].get("grep_checked", 0)
     if not outs[-1]["stats"].get("add_filter_patched"):
@@ -301,6 +313,7 @@ def run(prop, tier):
     if not grep_checked:
         raise lib.MachineryError("vacuity: the model's grep semantics was never cross-checked (R4)")
     nev = sum(len(t["events"]) for t in traces)
+    ncontent = len(set(t["id"].rsplit("/", 1)[0] for t in traces if t["kind"] == "content"))
     print("timing: drivers %.1fs, %d traces, %d events; host contexts ran grep -F %d times; grep semantics "
           "cross-checked on %d contents" % (time.time() - t1, len(traces), nev, grep_runs, grep_checked))
 
@@ -317,10 +330,31 @@ def run(prop, tier):
     for b in bad:
         rejected.pop(b["id"])
     val["traces"] -= len(bad)
-
     byid = dict((t["id"], t) for t in traces)
-    for tid, rj in sorted(rejected.items()):
-        t = byid[tid]
+    allrej = [(tid, rj, copy.deepcopy(byid[tid])) for tid, rj in sorted(rejected.items())]
+    # a rejected look-up ends the validation of its history: mark it as reported and validate the rest again
+    # (bounded number of rounds), so that one finding does not hide a different one later in the same history
+    rounds = 0
+    while rounds < 3:
+        again = []
+        for tid, rj in sorted(rejected.items()):
+            t = byid[tid]
+            e = t["events"][rj["line"] - 1]
+            if t["kind"] == "hist" and e["ev"] == "get" and rj["line"] < len(t["events"]):
+                e["skip"] = True
+                again.append(t)
+        if not again:
+            break
+        rounds += 1
+        v2 = lib.validate_traces("FiltersTrace", "FiltersTrace.cfg", again, jobs=njobs)
+        rejected = dict((r["id"], r) for r in v2["rejected"])
+        allrej += [(tid, rj, copy.deepcopy(byid[tid])) for tid, rj in sorted(rejected.items())]
+        val["events"] += v2["events"]
+        val["states"] += v2["states"]
+        val["transitions"] += v2["transitions"]
+    print("timing: validation incl. %d re-validation round(s) %.1fs" % (rounds, time.time() - t1))
+
+    for tid, rj, t in allrej:
         e = t["events"][rj["line"] - 1]
         if t["kind"] == "hist":
             what = "graph %s, history %s: event %d %s rejected: %s" % (
@@ -337,9 +371,10 @@ def run(prop, tier):
     ctr = [t for t in traces if t["kind"] == "content"]
     nontrivial = len(set(json.dumps([c["g"], c["hist"]], sort_keys=True) for c in hcases if hist_nontrivial(c))) + \
         len(set(json.dumps([c["lines"], c["allow"]], sort_keys=True) for c in ccases if content_nontrivial(c)))
-    dash = sum(1 for t in ctr for e in t["events"][:1] if e["feat"] == "first-sorted-filter-leading-dash")
+    dash = sum(1 for t in ctr for e in t["events"][:1]
+               if e["feat"] == "first-sorted-filter-leading-dash" and e["path"] == "host-file")
     samples = [dict(graph=c["g"], history=c["hist"]) for c in hcases[:2]]
-    samples += [dict(content=c["lines"], allow=c["allow"], concrete=concrete.get(c["id"])) for c in ccases[:2]]
+    samples += [dict(content=c["lines"], allow=c["allow"], concrete=concrete.get(c["id"] + "/archive")) for c in ccases[:2]]
     if htr:
         samples.append(dict(trace_id=htr[0]["id"], events=htr[0]["events"][:5]))
     if ctr:
